@@ -18,6 +18,7 @@ def nonempty_bytes(key):
 NONTRIVIAL = {
     "c11": nonempty_bytes("name"),
     "fp": lambda i: isinstance(i, dict) and any(len(a) > 0 for a in i.get("args", [])),
+    "c19": lambda i: isinstance(i, dict) and (len(i.get("s") or []) > 0 or len(i.get("m") or []) > 0 or i.get("op") not in ("parse", "print")),
     "c15": lambda i: isinstance(i, dict) and len(i.get("name") or []) > 1,
 }
 
@@ -39,5 +40,12 @@ PROPS = {
         "rule": "corpus + exhaustive strings over {a,B,1,_,.,E-acute} up to length 5 (7 thorough), exhaustive separator-free words over {a,B,C,1,Omega} (with/without leading underscore), seeded random Unicode (multi-byte upper, title-case, non-Latin digits, invalid bytes); non-trivial = at least 2 runes; distinct by input",
         "level_text": "Theorems for all rune sequences and all upper/digit classifications: C15_lossless (join of the parts with the separator split on = name), C15_camel_no_empty_part, C15_dot_segments / C15_underscore_segments / C15_camel_branch (which segmentation applies), C15_index_safe (parts[1] in range), C15_transform and C15_conversions_agree (every helper is the part-wise conversion joined by its separator; all conversions share one skeleton). The declarative camel-case word boundaries (Model.NameSplit.boundary) are checked by Phi on every implementation observation and compared with the scanner on every input; Split and the eight helpers are compared with the model on ~25k names per quick run.",
         "level_note": "Trusted: Lean kernel; Go's unicode.IsUpper/IsTitle/IsDigit and strings.Title/ToUpper/ToLower enter as per-input tables computed by the harness (the theorems hold for every table); utf-8 decoding of the name by Go's range loop. The equality scanner = declarative boundary cut is validated by correspondence + Phi, not yet a theorem (C15_camel_segments pending).",
+    },
+    "C19": {
+        "engines": [("c19", "main")],
+        "lean": ["PgsVerif.Props.C19"],
+        "rule": "exhaustive parameter strings over {a,b,',','=',' '} up to length 6 (8 thorough) + corpus; random maps inside and outside the stated domain; int/uint extremes and random magnitudes, raw strings through the typed getters; clone followed by random writes through either handle (including empty maps); float/duration codecs sampled (incl. +-Inf, NaN, subnormals, min/max duration); non-trivial = non-empty string/map or a typed/clone op",
+        "level_text": "Theorems: print invariant under permutation of the map's entries and sorted; parse(print m) = m on the stated domain; parse(print(parse s)) = parse s for every byte string; last duplicate wins (parse of a++','++b = parse a overridden by parse b); bare key maps to empty and reads as true; int/uint/bool set-then-get round trips for all 64-bit values with Lean models of Itoa/Atoi/FormatUint/ParseUint/FormatBool/ParseBool; writes through a clone never reach the original. All over unbounded byte strings / maps.",
+        "level_note": "Trusted: Lean kernel; Go map semantics (a map is an association list with distinct keys; iteration order arbitrary - print is proved order-independent); strconv float and time.Duration format/parse pairs are assumed to round-trip (sampled by the harness every run, labelled as a test, not proved); unicode.IsSpace restricted to ASCII blanks in the Bool model.",
     },
 }
